@@ -315,71 +315,10 @@ func (p *Parser) parseOuterTemplate() ([]Node, error) {
 
 // Parse an expression
 func (p *Parser) parseExpression() (Node, error) {
-	// Parse the primary expression first
-	expr, err := p.parseSimpleExpression()
+	// Parse a chain of binary operators by precedence climbing
+	expr, err := p.parseBinaryExpression(PREC_LOWEST)
 	if err != nil {
 		return nil, err
-	}
-
-	// Check for array access with square brackets
-	for p.tokenIndex < len(p.tokens) &&
-		p.tokens[p.tokenIndex].Type == TOKEN_PUNCTUATION &&
-		p.tokens[p.tokenIndex].Value == "[" {
-
-		// Get the line number for error reporting
-		line := p.tokens[p.tokenIndex].Line
-
-		// Skip the opening bracket
-		p.tokenIndex++
-
-		// Parse the index expression
-		indexExpr, err := p.parseExpression()
-		if err != nil {
-			return nil, err
-		}
-
-		// Expect closing bracket
-		if p.tokenIndex >= len(p.tokens) ||
-			p.tokens[p.tokenIndex].Type != TOKEN_PUNCTUATION ||
-			p.tokens[p.tokenIndex].Value != "]" {
-			return nil, fmt.Errorf("expected closing bracket after array index at line %d", line)
-		}
-		p.tokenIndex++ // Skip closing bracket
-
-		// Create a GetItemNode
-		expr = NewGetItemNode(expr, indexExpr, line)
-	}
-
-	// Now check for filter operator (|)
-	// Process all filters in a loop to handle consecutive filters properly
-	for p.tokenIndex < len(p.tokens) &&
-		p.tokens[p.tokenIndex].Type == TOKEN_PUNCTUATION &&
-		p.tokens[p.tokenIndex].Value == "|" {
-
-		expr, err = p.parseFilters(expr)
-		if err != nil {
-			return nil, err
-		}
-	}
-
-	// Check for binary operators (and, or, ==, !=, <, >, etc.)
-	// Loop to handle multiple binary operators in sequence, such as 'hello' ~ ' ' ~ 'world'
-	for p.tokenIndex < len(p.tokens) &&
-		(p.tokens[p.tokenIndex].Type == TOKEN_OPERATOR ||
-			(p.tokens[p.tokenIndex].Type == TOKEN_NAME &&
-				(p.tokens[p.tokenIndex].Value == "and" ||
-					p.tokens[p.tokenIndex].Value == "or" ||
-					p.tokens[p.tokenIndex].Value == "in" ||
-					p.tokens[p.tokenIndex].Value == "not" ||
-					p.tokens[p.tokenIndex].Value == "is" ||
-					p.tokens[p.tokenIndex].Value == "matches" ||
-					p.tokens[p.tokenIndex].Value == "starts" ||
-					p.tokens[p.tokenIndex].Value == "ends"))) {
-
-		expr, err = p.parseBinaryExpression(expr)
-		if err != nil {
-			return nil, err
-		}
 	}
 
 	// Check for ternary operator (? :)
@@ -388,6 +327,51 @@ func (p *Parser) parseExpression() (Node, error) {
 		p.tokens[p.tokenIndex].Value == "?" {
 
 		return p.parseConditionalExpression(expr)
+	}
+
+	return expr, nil
+}
+
+// parseOperand parses a simple expression together with the postfix
+// constructs that bind tighter than any binary operator: [index] and |filter
+func (p *Parser) parseOperand() (Node, error) {
+	expr, err := p.parseSimpleExpression()
+	if err != nil {
+		return nil, err
+	}
+
+	for p.tokenIndex < len(p.tokens) && p.tokens[p.tokenIndex].Type == TOKEN_PUNCTUATION {
+		if p.tokens[p.tokenIndex].Value == "[" {
+			// Get the line number for error reporting
+			line := p.tokens[p.tokenIndex].Line
+
+			// Skip the opening bracket
+			p.tokenIndex++
+
+			// Parse the index expression
+			indexExpr, err := p.parseExpression()
+			if err != nil {
+				return nil, err
+			}
+
+			// Expect closing bracket
+			if p.tokenIndex >= len(p.tokens) ||
+				p.tokens[p.tokenIndex].Type != TOKEN_PUNCTUATION ||
+				p.tokens[p.tokenIndex].Value != "]" {
+				return nil, fmt.Errorf("expected closing bracket after array index at line %d", line)
+			}
+			p.tokenIndex++ // Skip closing bracket
+
+			// Create a GetItemNode
+			expr = NewGetItemNode(expr, indexExpr, line)
+		} else if p.tokens[p.tokenIndex].Value == "|" {
+			expr, err = p.parseFilters(expr)
+			if err != nil {
+				return nil, err
+			}
+		} else {
+			break
+		}
 	}
 
 	return expr, nil
@@ -942,132 +926,164 @@ func getOperatorPrecedence(operator string) int {
 	}
 }
 
-// Parse binary expressions (a + b, a and b, a in b, etc.)
-func (p *Parser) parseBinaryExpression(left Node) (Node, error) {
+// peekBinaryOperator reports the binary operator starting at the current
+// token, if any, and the number of tokens it spans
+func (p *Parser) peekBinaryOperator() (string, int, bool) {
+	if p.tokenIndex >= len(p.tokens) {
+		return "", 0, false
+	}
 	token := p.tokens[p.tokenIndex]
-	operator := token.Value
-	line := token.Line
+	if token.Type == TOKEN_OPERATOR {
+		return token.Value, 1, true
+	}
+	if token.Type != TOKEN_NAME {
+		return "", 0, false
+	}
+	next := ""
+	if p.tokenIndex+1 < len(p.tokens) && p.tokens[p.tokenIndex+1].Type == TOKEN_NAME {
+		next = p.tokens[p.tokenIndex+1].Value
+	}
+	switch token.Value {
+	case "and", "or", "in", "matches":
+		return token.Value, 1, true
+	case "not":
+		if next == "in" {
+			return "not in", 2, true
+		}
+		if next == "defined" {
+			return "not defined", 2, true
+		}
+	case "is":
+		if next == "not" {
+			return "is not", 2, true
+		}
+		return "is", 1, true
+	case "starts":
+		if next == "with" {
+			return "starts with", 2, true
+		}
+	case "ends":
+		if next == "with" {
+			return "ends with", 2, true
+		}
+	}
+	return "", 0, false
+}
 
-	// Special handling for "not defined" pattern
-	// This is the common pattern used in Twig: {% if variable not defined %}
-	if operator == "not" && p.tokenIndex+1 < len(p.tokens) &&
-		p.tokens[p.tokenIndex+1].Type == TOKEN_NAME &&
-		p.tokens[p.tokenIndex+1].Value == "defined" {
+// parseTestArguments parses the optional parenthesised arguments of a test
+func (p *Parser) parseTestArguments(line int) ([]Node, error) {
+	var args []Node
 
-		// Next token should be "defined"
-		p.tokenIndex += 2 // Skip both "not" and "defined"
+	// If there's an opening parenthesis, parse arguments
+	if p.tokenIndex < len(p.tokens) &&
+		p.tokens[p.tokenIndex].Type == TOKEN_PUNCTUATION &&
+		p.tokens[p.tokenIndex].Value == "(" {
 
-		// Create a TestNode with "defined" test
-		testNode := &TestNode{
-			ExpressionNode: ExpressionNode{
-				exprType: ExprTest,
-				line:     line,
-			},
-			node: left,
-			test: "defined",
-			args: []Node{},
+		p.tokenIndex++ // Skip opening parenthesis
+
+		// Parse arguments
+		if p.tokenIndex < len(p.tokens) &&
+			!(p.tokens[p.tokenIndex].Type == TOKEN_PUNCTUATION &&
+				p.tokens[p.tokenIndex].Value == ")") {
+
+			for {
+				// Parse each argument expression
+				argExpr, err := p.parseExpression()
+				if err != nil {
+					return nil, err
+				}
+				args = append(args, argExpr)
+
+				// Check for comma separator
+				if p.tokenIndex < len(p.tokens) &&
+					p.tokens[p.tokenIndex].Type == TOKEN_PUNCTUATION &&
+					p.tokens[p.tokenIndex].Value == "," {
+					p.tokenIndex++ // Skip comma
+					continue
+				}
+
+				// No comma, so end of argument list
+				break
+			}
 		}
 
-		// Then wrap it in a unary "not" node
-		return &UnaryNode{
-			ExpressionNode: ExpressionNode{
-				exprType: ExprUnary,
-				line:     line,
-			},
-			operator: "not",
-			node:     testNode,
-		}, nil
-	}
-
-	// Process multi-word operators
-	if token.Type == TOKEN_NAME {
-		// Handle 'not in' operator
-		if token.Value == "not" && p.tokenIndex+1 < len(p.tokens) &&
-			p.tokens[p.tokenIndex+1].Type == TOKEN_NAME &&
-			p.tokens[p.tokenIndex+1].Value == "in" {
-			operator = "not in"
-			p.tokenIndex += 2 // Skip both 'not' and 'in'
-		} else if token.Value == "is" && p.tokenIndex+1 < len(p.tokens) &&
-			p.tokens[p.tokenIndex+1].Type == TOKEN_NAME &&
-			p.tokens[p.tokenIndex+1].Value == "not" {
-			// Handle 'is not' operator
-			operator = "is not"
-			p.tokenIndex += 2 // Skip both 'is' and 'not'
-		} else if token.Value == "starts" && p.tokenIndex+1 < len(p.tokens) &&
-			p.tokens[p.tokenIndex+1].Type == TOKEN_NAME &&
-			p.tokens[p.tokenIndex+1].Value == "with" {
-			// Handle 'starts with' operator
-			operator = "starts with"
-			p.tokenIndex += 2 // Skip both 'starts' and 'with'
-		} else if token.Value == "ends" && p.tokenIndex+1 < len(p.tokens) &&
-			p.tokens[p.tokenIndex+1].Type == TOKEN_NAME &&
-			p.tokens[p.tokenIndex+1].Value == "with" {
-			// Handle 'ends with' operator
-			operator = "ends with"
-			p.tokenIndex += 2 // Skip both 'ends' and 'with'
-		} else {
-			// Single word operators like 'is', 'and', 'or', 'in', 'matches'
-			p.tokenIndex++ // Skip the operator token
+		// Expect closing parenthesis
+		if p.tokenIndex >= len(p.tokens) ||
+			p.tokens[p.tokenIndex].Type != TOKEN_PUNCTUATION ||
+			p.tokens[p.tokenIndex].Value != ")" {
+			return nil, fmt.Errorf("expected closing parenthesis after test arguments at line %d", line)
 		}
-	} else {
-		// Regular operators like +, -, *, /, etc.
-		p.tokenIndex++ // Skip the operator token
+		p.tokenIndex++ // Skip closing parenthesis
 	}
 
-	// Handle 'is' followed by a test
-	if operator == "is" || operator == "is not" {
-		// Check if this is a test
-		if p.tokenIndex < len(p.tokens) && p.tokens[p.tokenIndex].Type == TOKEN_NAME {
+	return args, nil
+}
+
+// Parse binary expressions (a + b, a and b, a in b, etc.) by precedence
+// climbing: operators of higher precedence bind tighter and operators of equal
+// precedence group from the left
+func (p *Parser) parseBinaryExpression(minPrecedence int) (Node, error) {
+	left, err := p.parseOperand()
+	if err != nil {
+		return nil, err
+	}
+
+	for {
+		operator, width, ok := p.peekBinaryOperator()
+		if !ok {
+			break
+		}
+		line := p.tokens[p.tokenIndex].Line
+
+		// Special handling for "not defined" pattern
+		// This is the common pattern used in Twig: {% if variable not defined %}
+		if operator == "not defined" {
+			if PREC_COMPARE < minPrecedence {
+				break
+			}
+			p.tokenIndex += width // Skip both "not" and "defined"
+
+			// Create a TestNode with "defined" test wrapped in a unary "not" node
+			testNode := &TestNode{
+				ExpressionNode: ExpressionNode{
+					exprType: ExprTest,
+					line:     line,
+				},
+				node: left,
+				test: "defined",
+				args: []Node{},
+			}
+			left = &UnaryNode{
+				ExpressionNode: ExpressionNode{
+					exprType: ExprUnary,
+					line:     line,
+				},
+				operator: "not",
+				node:     testNode,
+			}
+			continue
+		}
+
+		precedence := getOperatorPrecedence(operator)
+		if precedence < minPrecedence {
+			break
+		}
+		p.tokenIndex += width // Skip the operator token(s)
+
+		// Handle 'is' followed by a test
+		if (operator == "is" || operator == "is not") &&
+			p.tokenIndex < len(p.tokens) && p.tokens[p.tokenIndex].Type == TOKEN_NAME {
 			testName := p.tokens[p.tokenIndex].Value
 			p.tokenIndex++ // Skip the test name
 
 			// Parse test arguments if any
-			var args []Node
-
-			// If there's an opening parenthesis, parse arguments
-			if p.tokenIndex < len(p.tokens) &&
-				p.tokens[p.tokenIndex].Type == TOKEN_PUNCTUATION &&
-				p.tokens[p.tokenIndex].Value == "(" {
-
-				p.tokenIndex++ // Skip opening parenthesis
-
-				// Parse arguments
-				if p.tokenIndex < len(p.tokens) &&
-					!(p.tokens[p.tokenIndex].Type == TOKEN_PUNCTUATION &&
-						p.tokens[p.tokenIndex].Value == ")") {
-
-					for {
-						// Parse each argument expression
-						argExpr, err := p.parseExpression()
-						if err != nil {
-							return nil, err
-						}
-						args = append(args, argExpr)
-
-						// Check for comma separator
-						if p.tokenIndex < len(p.tokens) &&
-							p.tokens[p.tokenIndex].Type == TOKEN_PUNCTUATION &&
-							p.tokens[p.tokenIndex].Value == "," {
-							p.tokenIndex++ // Skip comma
-							continue
-						}
-
-						// No comma, so end of argument list
-						break
-					}
-				}
-
-				// Expect closing parenthesis
-				if p.tokenIndex >= len(p.tokens) ||
-					p.tokens[p.tokenIndex].Type != TOKEN_PUNCTUATION ||
-					p.tokens[p.tokenIndex].Value != ")" {
-					return nil, fmt.Errorf("expected closing parenthesis after test arguments at line %d", line)
-				}
-				p.tokenIndex++ // Skip closing parenthesis
+			args, err := p.parseTestArguments(line)
+			if err != nil {
+				return nil, err
 			}
 
 			// Create the test node
-			test := &TestNode{
+			var test Node = &TestNode{
 				ExpressionNode: ExpressionNode{
 					exprType: ExprTest,
 					line:     line,
@@ -1079,94 +1095,29 @@ func (p *Parser) parseBinaryExpression(left Node) (Node, error) {
 
 			// If it's a negated test (is not), create a unary 'not' node
 			if operator == "is not" {
-				return &UnaryNode{
+				test = &UnaryNode{
 					ExpressionNode: ExpressionNode{
 						exprType: ExprUnary,
 						line:     line,
 					},
 					operator: "not",
 					node:     test,
-				}, nil
+				}
 			}
-
-			return test, nil
-		}
-	}
-
-	// If we get here, we have a regular binary operator
-
-	// Get precedence of current operator
-	precedence := getOperatorPrecedence(operator)
-
-	// Parse the right side expression
-	right, err := p.parseSimpleExpression()
-	if err != nil {
-		return nil, err
-	}
-
-	// Create the current binary node
-	binaryNode := NewBinaryNode(operator, left, right, line)
-
-	// Check for another binary operator
-	if p.tokenIndex < len(p.tokens) &&
-		(p.tokens[p.tokenIndex].Type == TOKEN_OPERATOR ||
-			(p.tokens[p.tokenIndex].Type == TOKEN_NAME &&
-				(p.tokens[p.tokenIndex].Value == "and" ||
-					p.tokens[p.tokenIndex].Value == "or" ||
-					p.tokens[p.tokenIndex].Value == "in" ||
-					p.tokens[p.tokenIndex].Value == "not" ||
-					p.tokens[p.tokenIndex].Value == "is" ||
-					p.tokens[p.tokenIndex].Value == "matches" ||
-					p.tokens[p.tokenIndex].Value == "starts" ||
-					p.tokens[p.tokenIndex].Value == "ends"))) {
-
-		// Get the next operator and its precedence
-		nextOperator := p.tokens[p.tokenIndex].Value
-		if p.tokens[p.tokenIndex].Type == TOKEN_NAME {
-			// Handle multi-word operators
-			if nextOperator == "not" && p.tokenIndex+1 < len(p.tokens) &&
-				p.tokens[p.tokenIndex+1].Type == TOKEN_NAME &&
-				p.tokens[p.tokenIndex+1].Value == "in" {
-				nextOperator = "not in"
-			} else if nextOperator == "is" && p.tokenIndex+1 < len(p.tokens) &&
-				p.tokens[p.tokenIndex+1].Type == TOKEN_NAME &&
-				p.tokens[p.tokenIndex+1].Value == "not" {
-				nextOperator = "is not"
-			} else if nextOperator == "starts" && p.tokenIndex+1 < len(p.tokens) &&
-				p.tokens[p.tokenIndex+1].Type == TOKEN_NAME &&
-				p.tokens[p.tokenIndex+1].Value == "with" {
-				nextOperator = "starts with"
-			} else if nextOperator == "ends" && p.tokenIndex+1 < len(p.tokens) &&
-				p.tokens[p.tokenIndex+1].Type == TOKEN_NAME &&
-				p.tokens[p.tokenIndex+1].Value == "with" {
-				nextOperator = "ends with"
-			}
+			left = test
+			continue
 		}
 
-		nextPrecedence := getOperatorPrecedence(nextOperator)
-
-		// If the next operator has higher precedence, we need to parse it first
-		if nextPrecedence > precedence {
-			// Replace the right side with a binary expression
-			newRight, err := p.parseBinaryExpression(right)
-			if err != nil {
-				return nil, err
-			}
-
-			// Update the binary node with the new right side
-			binaryNode = NewBinaryNode(operator, left, newRight, line)
+		// Regular binary operator: the right operand takes only operators that
+		// bind tighter, so equal precedence groups from the left
+		right, err := p.parseBinaryExpression(precedence + 1)
+		if err != nil {
+			return nil, err
 		}
+		left = NewBinaryNode(operator, left, right, line)
 	}
 
-	// Check for ternary operator after parsing the binary expression
-	if p.tokenIndex < len(p.tokens) &&
-		p.tokens[p.tokenIndex].Type == TOKEN_PUNCTUATION &&
-		p.tokens[p.tokenIndex].Value == "?" {
-		// This is a conditional expression, use the binary node as the condition
-		return p.parseConditionalExpression(binaryNode)
-	}
-
-	return binaryNode, nil
+	return left, nil
 }
 
 // parseEndTag handles closing tags like endif, endfor, endblock, etc.
